@@ -113,6 +113,33 @@ def components(keysets):
     return sorted((sorted(s), idx) for s, idx in comp.values())
 
 
+# ----------------------------------------------------------------------------------------------
+# 'the reactions' of a part / half / sum: the statement speaks of the reactions, not of Python identity, so a reaction of a result
+# counts as original reaction i when it is that very object OR has the same content (the four parts and the constant)
+def _same_rxn(obj, r):
+    return (dict(obj.reac), dict(obj.prod), dict(obj.inact_reac), dict(obj.inact_prod)) == (
+        dict(r["reac"]), dict(r["prod"]), dict(r["inact_reac"]), dict(r["inact_prod"])) and obj.param == (
+        tuple(r["param"]) if isinstance(r["param"], list) else r["param"])
+
+
+def _match(produced, objs, data):
+    """One-to-one assignment of the produced reactions to the originals (objs[i] was built from data[i]): for each produced reaction, in
+    turn, the index of a not yet taken original that it IS, else the lowest not yet taken original of the same content; None (and the
+    offender) when there is none -- a reaction that is no original one, or one original handed out more often than it is there.  'Same
+    content' is an equivalence and the very object has the same content, so taking the lowest free index loses no assignment, and it
+    gives the indices in ascending order whenever some assignment does."""
+    taken = set()
+    out = []
+    for r in produced:
+        hit = [i for i, o in enumerate(objs) if i not in taken and r is o][:1] or [
+            i for i, d in enumerate(data) if i not in taken and _same_rxn(r, d)][:1]
+        if not hit:
+            return None, r
+        taken.add(hit[0])
+        out.append(hit[0])
+    return out, None
+
+
 def run_split(case):
     rxns = case["rxns"]
     subst = case["substances"]
@@ -123,31 +150,31 @@ def run_split(case):
     except Exception as e:
         return False, "split raised %s: %s" % (type(e).__name__, e)
     exp = components([_keys(r) for r in rxns])
-    # partition of the reactions (by identity)
-    ids = [id(o) for o in objs]
-    seen = []
-    for p in parts:
-        for r in p.rxns:
-            if id(r) not in ids:
-                return False, "a part contains a reaction that is not one of the original objects: %s" % r
-            seen.append(ids.index(id(r)))
+    # partition of the reactions: every reaction of every part is one of the originals (the object or an equal copy), each original once
+    flat = [r for p in parts for r in p.rxns]
+    seen, stray = _match(flat, objs, rxns)
+    if seen is None:
+        return False, "a part contains a reaction that is none of the original reactions (or one of them once more than the system has it): %s" % stray
     if sorted(seen) != list(range(len(objs))):
         return False, "reaction indices over the parts are %s, not a partition of 0..%d" % (sorted(seen), len(objs) - 1)
     got = []
+    pos = 0
     for p in parts:
+        pidx = seen[pos:pos + len(p.rxns)]      # the original indices of this part's reactions
+        pos += len(p.rxns)
         sk = list(p.substances.keys())
         used = set()
         for r in p.rxns:
             used |= set(r.keys())
         if set(sk) != used:
             return False, "part with reactions %s has substances %s but its reactions use %s" % (
-                [ids.index(id(r)) for r in p.rxns], sk, sorted(used))
+                pidx, sk, sorted(used))
         if [k for k in subst if k in used] != sk:
             return False, "part substances %s not in the parent's order %s" % (sk, subst)
         inner = components([set(r.keys()) for r in p.rxns])
         if len(inner) != 1:
             return False, "part with substances %s is not connected: %s" % (sk, inner)
-        got.append((sorted(sk), sorted(ids.index(id(r)) for r in p.rxns)))
+        got.append((sorted(sk), sorted(pidx)))
     for i in range(len(got)):
         for j in range(i + 1, len(got)):
             both = set(got[i][0]) & set(got[j][0])
@@ -201,12 +228,6 @@ def run_categorize(case):
 
 # ----------------------------------------------------------------------------------------------
 # the list-like queries
-def _same_rxn(obj, r):
-    return (dict(obj.reac), dict(obj.prod), dict(obj.inact_reac), dict(obj.inact_prod)) == (
-        dict(r["reac"]), dict(r["prod"]), dict(r["inact_reac"]), dict(r["inact_prod"])) and obj.param == (
-        tuple(r["param"]) if isinstance(r["param"], list) else r["param"])
-
-
 def run_queries(case):
     import numpy as np
     rxns, subst = case["rxns"], case["substances"]
@@ -218,6 +239,7 @@ def run_queries(case):
         return False, "substance order %s, given %s" % (list(rsys.substances.keys()), subst)
     if rsys.nr != len(rxns) or rsys.ns != len(subst):
         return False, "nr, ns = %d, %d" % (rsys.nr, rsys.ns)
+    objs = list(rsys.rxns)
     try:
         # identify_equilibria: (i, j) iff j is the first later reaction that is i reversed (inactive parts included)
         exp = []
@@ -252,7 +274,8 @@ def run_queries(case):
         yes, no = rsys.subset(pred)
         for part, want in ((yes, True), (no, False)):
             idx = [i for i, s in enumerate(sel) if s == want]
-            if len(part.rxns) != len(idx) or not all(part.rxns[n] is rsys.rxns[i] for n, i in enumerate(idx)):
+            # the reactions the predicate selects, in the system's order: the objects themselves or equal copies
+            if len(part.rxns) != len(idx) or _match(part.rxns, objs, rxns)[0] != idx:
                 return False, "subset(%s)[%s] has reactions %s, expected the reactions %s in order" % (
                     case["pred"], want, [str(r) for r in part.rxns], idx)
             used = set()
@@ -268,8 +291,8 @@ def run_queries(case):
         exp_sub = subst + [k for k in other_sub if k not in subst]
         if list(tot.substances.keys()) != exp_sub:
             return False, "(rsys + other).substances = %s, expected %s" % (list(tot.substances.keys()), exp_sub)
-        if len(tot.rxns) != len(rxns) + len(other_rx) or not all(
-                a is b for a, b in zip(tot.rxns, list(rsys.rxns) + list(other.rxns))):
+        if len(tot.rxns) != len(rxns) + len(other_rx) or _match(
+                tot.rxns, objs + list(other.rxns), rxns + other_rx)[0] != list(range(len(rxns) + len(other_rx))):
             return False, "(rsys + other).rxns = %s" % [str(r) for r in tot.rxns]
         if len(rsys.rxns) != len(rxns) or list(rsys.substances.keys()) != subst:
             return False, "rsys + other modified rsys"
@@ -619,7 +642,8 @@ def run(tier, seed):
                  "renaming of the substances (%d classes), in every distinct reaction order; all 5 substances are "
                  "declared (so isolated species occur); each reaction is realised as plain / with a catalyst on both "
                  "sides / with an inactive species, the flavour rotating with class, order and seed (thorough: all "
-                 "three rotations). Oracle: union-find components. Checked: the parts partition the reaction objects, "
+                 "three rotations). Oracle: union-find components. Checked: the parts partition the reactions (each reaction of a "
+                 "part is an original object or an equal copy -- four parts and constant --, every original matched once), "
                  "substance sets pairwise disjoint, equal to the species their reactions use (parent order), each "
                  "connected, and exactly one part per component." % len(reps),
             bound="<= 4 reactions over <= 5 substances", exhaustive=small_exhaustive),
@@ -640,7 +664,8 @@ def run(tier, seed):
         queries=dict(
             rule="random systems (<= 12 substances in random declared order, <= 8 reactions) and a second small system: "
                  "identify_equilibria, substance_participation and per_reaction_effect_on_substance for every "
-                 "substance and an unknown key, subset(pred) for 'order >= n' / 'contains X' predicates, rsys + other, "
+                 "substance and an unknown key, subset(pred) for 'order >= n' / 'contains X' predicates, rsys + other "
+                 "(reactions of the halves / the sum: the original objects or equal copies, matched one-to-one, in order), "
                  "rsys + [reaction], +=, ==, as_per_substance_array/dict round trip from a shuffled dict and a list, "
                  "as_substance_index, raise_on_unk, wrong length, constructor ordering for set / None / str / list "
                  "and refusal of duplicate reactions, undeclared species, duplicate names.",
